@@ -4,8 +4,8 @@
     by the unit "sendmode"). C06 proved that the handler's SendMode IS send_mode on the gate
     read from the handler state (sendMode_is_gate) and what follows in every reachable state
     (send_gate_history); here the two are joined into the statement C20 makes. *)
-From Coq Require Import List ZArith Bool.
-From V Require Import Gen.Params SentPH.Model SentPH.ProofsAckRules SentPH.ProofsScalars.
+From Coq Require Import List ZArith Bool Lia.
+From V Require Import Gen.Params SentPH.Model SentPH.ProofsHist SentPH.ProofsBase SentPH.ProofsAckRules SentPH.ProofsScalars.
 From V Require Congestion.Model.
 Import ListNotations.
 Open Scope Z_scope.
@@ -43,3 +43,43 @@ Example send_gate_handler_nonvacuous :
                 [ (ODrop 1 1000000000, w_orc); (ODrop 2 1000000000, w_orc); (OSend 4 1000000000 (-1) [] [1] 1200 false false 0, w_orc) ] in
   V.Congestion.Model.send_mode (gate_of st 40960 true) = sm_SendAny /\ sBif st = 1200.
 Proof. vm_compute. auto. Qed.
+
+(** ** Round 5: one statement with the REAL bytes in flight and the REAL window *)
+From V Require Congestion.ProofsCubic Congestion.ProofsPacer.
+Module CM := V.Congestion.Model.
+
+(** [st]: any state the sentPacketHandler model reaches from NewSentPacketHandler; [s]: any state the
+    Reno sender model reaches from NewCubicSender by production events (no OnConnectionMigration). The
+    handler asks the sender CanSend(bytesInFlight) and HasPacingBudget(now): the gate is fed with the
+    handler's own bytesInFlight, the sender's own window and the sender's own pacer budget. Then
+    SendMode = any implies: bytes in flight (= sum of the tracked in-flight packets) < cwnd, the window is
+    within its bounds, the pacer's budget covers a datagram and is at most one burst, no amplification
+    limit, no probe owed — and the next accepted packet leaves bytesInFlight < cwnd + its size.
+    The statement holds for EVERY pair (st, s), hence for the pair a connection is in; that the two
+    models run in lock-step with the code is what the spy cases of unit sendmode check. *)
+Theorem send_gate_composed : forall client validated ipn period maxPeriod rnd0 hops m0 srtt0 sops now srtt,
+  0 <= ipn -> 0 < m0 -> Forall (fun o => V.Congestion.ProofsCubic.is_migrate o = false) sops ->
+  let st := run (init client validated ipn period maxPeriod rnd0) hops in
+  let s := CM.run (CM.new_sender m0 true srtt0) sops in
+  let hb := CM.budget (CM.pc s) now (CM.bw_est s srtt) >=? CM.mds s in
+  sendMode st (sBif st <? CM.cwnd s) hb = sph_SendAny ->
+  sBif st < CM.cwnd s /\
+  sBif st = msum f_incl (pk st SI) + msum f_incl (pk st SH) + msum f_incl (pk st SA) /\
+  cc_minCongestionWindowPackets * CM.mds s <= CM.cwnd s <= cc_maxCongestionWindowPackets * CM.mds s + CM.mds s /\
+  CM.mds s <= CM.budget (CM.pc s) now (CM.bw_est s srtt) <= CM.max_burst (CM.pc s) (CM.bw_est s srtt) /\
+  isAmplificationLimited st = false /\ sProbes st <= 0 /\
+  (forall l t la sfs fs size mtu probe rnd orc,
+     op_valid st (OSend l t la sfs fs size mtu probe rnd) = true ->
+     sBif (fst (step st (OSend l t la sfs fs size mtu probe rnd, orc))) < CM.cwnd s + size).
+Proof.
+  intros client validated ipn period maxPeriod rnd0 hops m0 srtt0 sops now srtt Hipn Hm0 Hmig st s hb H.
+  destruct (send_gate_history client validated ipn period maxPeriod rnd0 hops (CM.cwnd s) hb Hipn H)
+    as (A & B & C & _ & D & E & F & G).
+  pose proof (V.Congestion.ProofsCubic.cwnd_bounds_production (CM.new_sender m0 true srtt0) sops eq_refl
+                (V.Congestion.ProofsCubic.new_sender_InvC m0 true srtt0 Hm0) Hmig) as [W1 W2].
+  fold s in W1, W2.
+  unfold hb in E. apply Z.geb_le in E.
+  pose proof (V.Congestion.ProofsPacer.budget_le_burst (CM.pc s) now (CM.bw_est s srtt)).
+  repeat split; auto; try lia.
+  intros. apply (G l t la sfs fs size mtu probe rnd orc H1).
+Qed.
